@@ -1,0 +1,3 @@
+// Package verifx re-exports internal components for the external verification
+// harness. It only has content when built with the "verif" build tag.
+package verifx
